@@ -42,3 +42,27 @@ def classify_c14(text, candidates, bad_observations, nbad):
         if k == 'first' and not any(v == (split(u)[0] if split(u) else None) for u in candidates):
             return None
     return 'KF-C14-CR'
+
+
+def classify_c09(fragments, ctx, follower, want, got, ident, d=None):
+    """KF-C09-QUOTE.  Predicate: the token is made of adjacent fragments of which at least one is hard-quoted and at least one is not,
+    and some fragment contains a symbol reference.  Defect model: the quoting type of the whole token is decided by its first character:
+    if the first fragment is hard-quoted nothing is substituted, otherwise references are substituted in every fragment (also inside hard
+    quotes).  The observation must be exactly what this model predicts, and the case must otherwise succeed."""
+    if not is_known('KF-C09-QUOTE') or ident != 'PASS' or got is None:
+        return None
+    forms = [f for f, _ in fragments]
+    if 'hard' not in forms or all(f == 'hard' for f in forms):
+        return None
+    raw = ''.join(c for _, c in fragments)
+    if '@[S]@' not in raw:
+        return None
+    predicted = raw if forms[0] == 'hard' else raw.replace('@[S]@', 'VAL')
+    true_den = ''.join(c if f == 'hard' else c.replace('@[S]@', 'VAL') for f, c in fragments)
+    if predicted == true_den:
+        return None
+    if isinstance(want, list):
+        pw = [predicted if x == true_den else x for x in want]
+    else:
+        pw = predicted if want == true_den else want
+    return 'KF-C09-QUOTE' if got == pw else None
